@@ -12,6 +12,7 @@ SHARDS = {"quick": 8, "thorough": 16}
 RULE = ("a base point (THDM mass basis / MSSM on-shell) and one coincidence target m0 formed from the other masses of the "
         "point and MZ, MW, 2MW, m_hSM, fermion masses: m_i = m_j, m_i = m_j +- m_k, m_i = 2 m_j, m_i = m_j/2; one mass "
         "(THDM) or mass parameter (MSSM) is moved along m0 (1+d), d in {0, +-1e-13, ..., +-1e-3} (23 evaluations). "
+        "One THDM base point in four has all scalars between 1 and 2 TeV; Kaellen targets m_H+ = m_t -+ m_b are over-weighted. "
         "Non-trivial = admissible path (contribution changes by < 20 % between d = -1e-3 and +1e-3 and is above the "
         "rounding floor of its own terms) for at least one component; distinct = distinct (base point, target).")
 ASSUMPTIONS = [
